@@ -3,6 +3,8 @@ import SqlObjVerif.Lemmas.CacheXCull
 import SqlObjVerif.Lemmas.CacheXRep
 import SqlObjVerif.Lemmas.CacheXList
 import SqlObjVerif.Lemmas.GetXInv
+import SqlObjVerif.Lemmas.GetXTx
+import SqlObjVerif.Lemmas.GetXExpireAll
 /-!
 # C04 — identity map: one live instance per row per connection on every access path
 
@@ -532,6 +534,78 @@ theorem C04_translated_cacheSet_dispatch (w : GW) (c c' : Cls) (k : Id) (h : Han
     (∃ W v, csCall w "expire" [.key k, .cls c] = .ret W v ∧ W.s.fac c' = w.s.fac c' ∧ W.lock c' = w.lock c') ∧
     (csCall w "tryGet" [.key k, .cls c'] = .ret w (optV (tryGet w.s c' k))) :=
   cacheSet_dispatch w c c' k h hne hwf hl hfr hrep hnc hk
+
+/-! ### `CacheSet` methods that loop over all factories; C07's interface; `delete`; `connection.expireAll()` -/
+
+open SqlObjVerif.PyGet in
+/-- the `CacheSet` methods that loop over every factory (`self.caches.values()`, dict order), as translated:
+    * `weakrefAll()` = the model's `weakrefAll` (no lock held; `NoRel`: what the strong cache lets go of does not die on
+      the spot); `weakrefAll(cls)` = that class's `CacheFactory.expireAll()` (`weakrefOne`), nothing without a factory;
+    * `clear()` = `CacheFactory.clear()` of every factory in turn (`facFold`; each one: `C04_translated_clear_spec`),
+      `clear(cls)` = that factory's;
+    * `allSubCaches()` = the factories; `allSubCachesByClassNames()` = the `caches` dict itself;
+    * `getAll()` = the instances every factory lists, concatenated, nothing changes; `getAll(cls)` = that factory's list;
+    * `allIDs(cls)` AS WRITTEN drops the factory's answer (no `return`): `None` with a factory, `[]` without -/
+theorem C04_translated_cacheSet_loops_eq_model (w : GW) (c : Cls) :
+    (w.WF → (∀ c, w.lock c = false) → NoRel w.s →
+      csCall w "weakrefAll" [] = .ret { w with s := weakrefAll w.s } .none) ∧
+    (w.lock c = false → (∀ e ∈ (w.s.fac c).strong, relOf w.s e.2 = false) →
+      csCall w "weakrefAll" [.cls c] = .ret (if c ∈ w.made then { w with s := weakrefOne w.s c } else w) .none) ∧
+    csCall w "clear" [] = CallRes.unit (facFold "clear" w.made w) ∧
+    csCall w "clear" [.cls c] = (if c ∈ w.made then CallRes.unit (facCall w c "clear" []) else .ret w .none) ∧
+    csCall w "allSubCaches" [] = .ret w (Val.ofList (w.made.map fun c => Val.ref "factory" c)) ∧
+    csCall w "allSubCachesByClassNames" [] = .ret w Vcaches ∧
+    csCall w "getAll" [] = .ret w (Val.ofList ((w.made.flatMap (facObjs w)).map Val.obj)) ∧
+    csCall w "getAll" [.cls c] = .ret w (if c ∈ w.made then Val.ofList ((facObjs w c).map Val.obj) else .nil) ∧
+    csCall w "allIDs" [.cls c] = .ret w (if c ∈ w.made then .none else .nil) :=
+  ⟨fun hwf hl hr => csWeakrefAll_all w hwf hl hr, fun hl hrel => csWeakrefAll_cls w c hl hrel, csClear_all w,
+   csClear_cls w c, csAllSubCaches_eq w, csAllSubCachesByClassNames_eq w, csGetAll_all w, csGetAll_cls w c,
+   csAllIDs_eq w c⟩
+
+open SqlObjVerif.PyGet SqlObjVerif.Tx in
+/-- C07's interface assumption about `allSubCaches()` / `allSubCachesByClassNames()` / `sub.allIDs()` (header of
+    `Model/TxX.lean`), PROVED of the translated methods for every world `w` representing C07's connection `t`
+    (`ConnRel`: key = class * 1000 + id, `strong` / `weak` = the factory's two dicts, `alive` = not dead): they list the
+    classes `A.classes t` and the ids `A.ids dc t c`, change nothing, and `AllIDsSpec A dc t` holds (`A = allIDsOf w`) -/
+theorem C04_translated_cacheSet_allIDs_is_inAllIDs {dc : Bool} {t : Conn} {w : GW} (h : ConnRel dc t w) (hwf : w.WF)
+    (hd : DictInv w.s) :
+    csCall w "allSubCaches" [] = .ret w (Val.ofList (((allIDsOf w).classes t).map fun c => Val.ref "factory" c)) ∧
+    (csCall w "allSubCachesByClassNames" [] = .ret w Vcaches ∧
+      csIface.values w Vcaches = some (((allIDsOf w).classes t).map fun c => Val.ref "factory" c)) ∧
+    (∀ c, facCall w c "allIDs" [] = .ret w (Val.ofList (((allIDsOf w).ids dc t c).map Val.key))) ∧
+    AllIDsSpec (allIDsOf w) dc t :=
+  cacheSet_allIDs_is_inAllIDs h hwf hd
+
+open SqlObjVerif.PyGet SqlObjVerif.Tx in
+/-- C07's interface assumption about `sub.tryGet(id)` / `cache.tryGetByName(id, cls)`: as translated they are
+    `Conn.tryGet` of the represented connection, and change nothing -/
+theorem C04_translated_cacheSet_tryGetByName_is_connTryGet {dc : Bool} {t : Conn} {w : GW} (h : ConnRel dc t w)
+    (hwf : w.WF) (c : Cls) (i : Id) (hi : i < 1000) :
+    facCall w c "tryGet" [.key i] = .ret w (optV (t.tryGet dc (mkKey c i))) ∧
+    csCall w "tryGetByName" [.key i, .name c] = .ret w (optV (t.tryGet dc (mkKey c i))) ∧
+    csCall w "tryGet" [.key i, .cls c] = .ret w (optV (t.tryGet dc (mkKey c i))) :=
+  cacheSet_tryGet_is_connTryGet h hwf c i hi
+
+open SqlObjVerif.PyGet in
+/-- `cls.delete(id, connection)` = `cls.get(id, connection=connection)` then `destroySelf()` of what it returned
+    (`destroy`: the cascade is C12's; its cache-facing tail is `C04_translated_destroy_tail_eq_model`) -/
+theorem C04_translated_delete_eq_model (destroy : GW → Handle → CallRes GW) (w : GW) (c : Cls) (k : Id) (conn : Val) :
+    (∀ W h, getG w c k conn .none = .ret W (.obj h) → deleteG destroy w c k conn = CallRes.unit (destroy W h)) ∧
+    (∀ W e, getG w c k conn .none = .exc W e → deleteG destroy w c k conn = .exc W e) :=
+  deleteG_eq destroy w c k conn
+
+open SqlObjVerif.PyGet in
+/-- `connection.expireAll()`: `cache.weakrefAll()` = the model's `weakrefAll`, then `item.expire()` = the model's
+    `expireOne` for every instance `cache.getAll()` lists (the model's `expireAll` step folds `expireOne` over the same
+    set of instances in handle order) -/
+theorem C04_translated_connection_expireAll_eq_model (w : GW) (hwf : w.WF) (hl : ∀ c, w.lock c = false)
+    (hwl : ∀ h, w.wlock h = false) (hr : NoRel w.s)
+    (hnc : w.s.cfg.doCache = false → ∀ c, (w.s.fac c).strong = []) :
+    connExpireAllG w =
+      let W1 : GW := { w with s := weakrefAll w.s }
+      let items := W1.made.flatMap (facObjs W1)
+      .ret { W1 with s := items.foldl expireOne W1.s, dirty := items.foldl (fun d h => upd d h false) w.dirty } .none :=
+  connExpireAllG_eq w hwf hl hwl hr hnc
 
 /-! ### the headline theorems, about the translated source
 
